@@ -475,7 +475,7 @@ CORPUS = [
 
 
 def generate(rng, tier):
-    n = 520 if tier == "quick" else 9000
+    n = 1500 if tier == "quick" else 40000
     cases = list(CORPUS)
     kinds = ["nearest"] * 4 + ["identity"] * 2 + ["linaff"] * 3 + ["linrand"]
     for i in range(n):
@@ -727,8 +727,13 @@ def _masks_consistent(case):
 
 
 def monitor(case, obs):
-    if not all(obs.get("points_agree", [True, True])):
+    f = _monitor(case, obs)
+    if f is None and not all(obs.get("points_agree", [True, True])):
         return "grid.data_points differs from the locations of the data elements (order/layout pairing premise)"
+    return f
+
+
+def _monitor(case, obs):
     fl = _flat(case)
     r = obs["res"]
     keep = [not m for m in fl["smask"]] if fl["smask"] is not None else [True] * len(fl["spts"])
